@@ -125,3 +125,10 @@ Definition box_ok (c : bool * bool * bool * list bdecl * list bdecl) : bool :=
   let '(aa, cc, lower, i, o) := c in
   leqb bdecl_eqb (fst (rd bdecl_eqb (fun _ => false) (fun _ => true) (box_process aa cc lower i) [])) o.
 Definition check_box := mismatches box_ok.
+
+(* ---- borderRadiusTracker: radius_process (then declaration-level duplicate removal) ---- *)
+From V Require Import C12.RadiusTracker.
+Definition radius_ok (c : list bdecl * list bdecl) : bool :=
+  let '(i, o) := c in
+  leqb bdecl_eqb (fst (rd bdecl_eqb (fun _ => false) (fun _ => true) (radius_process i) [])) o.
+Definition check_radius := mismatches radius_ok.
